@@ -3601,10 +3601,12 @@ def cli_main():
 
     # validate the hex offset up front so that a bad value fails before any output file is written
     hex_offset = None
-    if args.hex_offset:
+    if args.hex_offset is not None:
         try:
             hex_offset = int(args.hex_offset, base=0)
         except ValueError:
+            raise SystemExit('invalid hex offset: {}'.format(args.hex_offset))
+        if hex_offset < 0:
             raise SystemExit('invalid hex offset: {}'.format(args.hex_offset))
 
     constants = {}
